@@ -5,11 +5,13 @@
    message is its segments, capability table (client ids, 0 = nil client) and read limit.
    [fx_bitlist]: false = the code as found (defect F01: a bit list has element size 0, so
    the fast path compares 0 bytes), true = the repaired code.
+   [fx_farnull]: false = as found (O3: the extra pointers of the longer struct are tested by
+   their raw word, so a far pointer to a null landing pad counts as a pointer), true = repaired.
    No proofs in this file. *)
 From CV Require Export Value.ValueEq.
 Open Scope Z_scope.
 
-Record efix := mkEFix { fx_bitlist : bool; fx_rd : fixes }.
+Record efix := mkEFix { fx_bitlist : bool; fx_farnull : bool; fx_rd : fixes }.
 
 Record eworld := mkEW {
   ew_segs_a : segs; ew_caps_a : list Z;
@@ -47,12 +49,24 @@ Definition struct_data_equal (d1 d2 : list Z) : bool :=
   else if (n2 <? n1)%nat then bytes_eqb (firstn n2 d1) d2 && all_zero (skipn n2 d1)
   else bytes_eqb d1 d2.
 
-(* for i := from; i < from+n; i++ { if s.HasPtr(i) { return false } } *)
-Fixpoint no_ptrs (m : segs) (p : Ptr) (n : nat) (i : Z) : res bool :=
+(* Struct.hasNonNullPtr(i), i < PointerCount (the repair of O3): the raw word is non-zero and
+   does not resolve, through a far pointer, to a null landing pad *)
+Definition has_nonnull_ptr (strict : bool) (m : segs) (p : Ptr) (i : Z) : res bool :=
+  do v <- readRawPointer (seg_of m p) (pointerAddress p i);
+  if v =? 0 then Ok false
+  else match resolveFarPointer strict m (p_seg p) (seg_of m p) (pointerAddress p i) with
+       | Ok (_, _, _, val) => Ok (negb (val =? 0))
+       | Err => Ok true
+       | Panic => Panic
+       end.
+
+(* for i := from; i < from+n; i++ { if s.hasNonNullPtr(i) { return false } }
+   ([fixed] = false, as found: s.HasPtr(i), the raw pointer word) *)
+Fixpoint no_ptrs (fixed strict : bool) (m : segs) (p : Ptr) (n : nat) (i : Z) : res bool :=
   match n with
   | O => Ok true
-  | S n' => do h <- struct_hasptr m p i;
-            if h then Ok false else no_ptrs m p n' (i + 1)
+  | S n' => do h <- (if fixed then has_nonnull_ptr strict m p i else struct_hasptr m p i);
+            if h then Ok false else no_ptrs fixed strict m p n' (i + 1)
   end.
 
 (* Interface case *)
@@ -124,11 +138,11 @@ Fixpoint equal_m (fuel : nat) (c : config) (fx : efix) (w : eworld) (p q : Ptr) 
                  end) in
             match loop (Z.to_nat n) 0 w with
             | (EOk true, w') =>
-              match no_ptrs m1 p (Z.to_nat (pc1 - n)) n with
+              match no_ptrs (fx_farnull fx) (cfg_strict c) m1 p (Z.to_nat (pc1 - n)) n with
               | Panic => (EPanic, w') | Err => (EErr, w')
               | Ok false => (EOk false, w')
               | Ok true =>
-                match no_ptrs m2 q (Z.to_nat (pc2 - n)) n with
+                match no_ptrs (fx_farnull fx) (cfg_strict c) m2 q (Z.to_nat (pc2 - n)) n with
                 | Panic => (EPanic, w') | Err => (EErr, w')
                 | Ok b => (EOk b, w')
                 end
